@@ -304,7 +304,8 @@ def run(ctx):
         ctx.check(keys == ["cgroup_ctx.io_cost_rate(nullptr).value_or(0)"], "metric:kill_by_io_cost", "value-shape", f.loc(), "ranks by io_cost_rate", "ranks by " + str(keys))
     # kill_by_pg_scan
     for f, ls in rank_lambdas("KillPgScan"):
-        keys = sorted(ret_text(l, r) for l in ls for r in returns(l))
+        # `0 < rate` is `rate > 0` with the operands mirrored
+        keys = sorted(re.sub(r"^\(0 < (.*)\)$", r"(\1 > 0)", ret_text(l, r)) for l in ls for r in returns(l))
         ctx.check(keys == ["(cgroup_ctx.pg_scan_rate(nullptr).value_or(0) > 0)", "cgroup_ctx.pg_scan_rate(nullptr).value_or(0)"], "metric:kill_by_pg_scan", "value-shape", f.loc(),
                   "ranks by pg_scan_rate among cgroups with a positive rate", "key/filter are " + str(keys))
         X = Expander(P, f)
